@@ -13,10 +13,10 @@ use std::time::Duration;
 use vcore::refval::RefVal;
 use vcore::report::Report;
 
-const EVENTS: [&str; 26] = [
+const EVENTS: [&str; 27] = [
     "send->live", "send->dead", "send->never", "reg_send->registered", "reg_send->unknown", "exit->live", "monitor_exit->live", "rpc_reply",
     "unknown_control_99", "control_rejected_by_parser", "tick", "undecodable_body", "wrong_marker", "overlong_length", "premature_close", "close",
-    "silence_5s", "silence_9s", "silence_15s", "local:register_later", "reg_send->later", "send->crashed", "local:send_fails", "local:move_name", "local:register_taken_name", "send->live_in_node_local_form",
+    "silence_5s", "silence_9s", "silence_15s", "local:register_later", "reg_send->later", "send->crashed", "local:send_fails", "local:move_name", "local:register_taken_name", "send->live_in_node_local_form", "reg_send->latin1_name",
 ];
 
 fn execute(seq: &[usize], ctx: &WorkerCtx) -> ExecResult { execute_split(seq, None, ctx) }
@@ -37,6 +37,7 @@ fn execute_split(seq: &[usize], split: Option<usize>, ctx: &WorkerCtx) -> ExecRe
         let p2 = nw.node.spawn(Rec { name: "p2".into(), log: log.clone() }).await.unwrap();
         let p3 = nw.node.spawn(Rec { name: "p3".into(), log: log.clone() }).await.unwrap();
         nw.node.register(Atom::new("reg"), p2.clone()).await.unwrap();
+        nw.node.register(Atom::new("caf\u{e9}"), p1.clone()).await.unwrap();
         nw.node.send(&p3, OwnedTerm::atom("die")).await.unwrap();
         // a process whose handler panicked (its task is gone without an orderly exit)
         let p4 = nw.node.spawn(Bomb).await.unwrap();
@@ -77,6 +78,17 @@ fn execute_split(seq: &[usize], split: Option<usize>, ctx: &WorkerCtx) -> ExecRe
                     // the recipient written the way this node itself may have handed it out: LOCAL_EXT (hash, then the plain pid)
                     let mut b = vec![112u8, 131, 104, 3, 97, 2, 119, 0, 121, 0xAA, 0xBB, 0xCC, 0xDD, 1, 2, 3, 4];
                     vcore::refcodec::w_term(&mut b, &d1);
+                    b.push(131);
+                    vcore::refcodec::w_term(&mut b, &mark);
+                    nw.peer.send(&vcore::proto::frame(&b, 4));
+                    delivered = Some(("p1".into(), format!("msg:{}", mark)));
+                }
+                "reg_send->latin1_name" => {
+                    // the registered name 'café' written the legacy way: ATOM_EXT / SMALL_ATOM_EXT with the Latin-1 byte E9
+                    let mut b = vec![112u8, 131, 104, 4, 97, 6];
+                    vcore::refcodec::w_term(&mut b, &peer_pid(9));
+                    b.extend_from_slice(&[119, 0]);
+                    if n % 2 == 0 { b.extend_from_slice(&[100, 0, 4, b'c', b'a', b'f', 0xE9]); } else { b.extend_from_slice(&[115, 4, b'c', b'a', b'f', 0xE9]); }
                     b.push(131);
                     vcore::refcodec::w_term(&mut b, &mark);
                     nw.peer.send(&vcore::proto::frame(&b, 4));
@@ -322,6 +334,45 @@ fn backlog_exec(n: usize, ctx: &WorkerCtx) -> ExecResult {
     })
 }
 
+/// A process that is a full mailbox behind terminates while the receiver is waiting to hand it one more message (addressed by
+/// name, by identifier, or an exit signal): the receiver gets on with the frames that follow.
+fn backlog_dies_exec(kind: &usize, ctx: &WorkerCtx) -> ExecResult {
+    let kind = *kind;
+    run_rt(async move {
+        let mut res = ExecResult::default();
+        let mut nw = match node_world(ctx, flags_default()).await { Ok(x) => x, Err(e) => { res.violations.push(("could not establish the connection under a conforming peer".into(), json!({"error": e}))); return res; } };
+        nw.w.gates.set_active(&["proc.handle"]);
+        let log: Log = Arc::new(Mutex::new(vec![]));
+        let slow = nw.node.spawn(crate::procs::SlowDie { name: "slow".into(), log: log.clone() }).await.unwrap();
+        let idle = nw.node.spawn(Rec { name: "idle".into(), log: log.clone() }).await.unwrap();
+        nw.node.register(Atom::new("idle"), idle.clone()).await.unwrap();
+        nw.node.register(Atom::new("slow"), slow.clone()).await.unwrap();
+        let ds = den_pid(&slow);
+        let probe = { let l = log.clone(); move || l.lock().unwrap().len() as u64 };
+        for i in 0..1010usize {
+            let m = RefVal::Tuple(vec![RefVal::atom("n"), RefVal::int(i as i64)]);
+            match kind { 0 => nw.peer.send(&reg_send_to("slow", m)), 1 => nw.peer.send(&send_to(&ds, m)), _ => if i < 1005 { nw.peer.send(&send_to(&ds, m)) } else { nw.peer.send(&pt(RefVal::Tuple(vec![RefVal::int(3), peer_pid(5), ds.clone(), RefVal::atom("boom")]), None)) } };
+            if i % 64 == 0 { nw.w.settle(&mut nw.peer, &probe).await; }
+        }
+        nw.peer.send(&reg_send_to("idle", RefVal::atom("hello")));
+        nw.w.settle(&mut nw.peer, &probe).await;
+        // the held process is let go and fails; the receiver, which was waiting for room in its mailbox, carries on
+        nw.w.gates.release_all_and_deactivate();
+        for _ in 0..10 { nw.w.settle(&mut nw.peer, &probe).await; }
+        nw.peer.send(&reg_send_to("idle", RefVal::atom("again")));
+        for _ in 0..10 { nw.w.settle(&mut nw.peer, &probe).await; }
+        let got_idle: Vec<String> = log.lock().unwrap().iter().filter(|x| x.0 == "idle").map(|x| x.1.clone()).collect();
+        let still = nw.node.registry().get(&slow).await.is_some();
+        let addressed = ["name", "identifier", "identifier, then exit signals"][kind % 3];
+        if got_idle != vec![format!("msg:{}", RefVal::atom("hello")), format!("msg:{}", RefVal::atom("again"))] || still || !nw.node.connections().contains_key(PEER_NAME) {
+            res.violations.push(("a message for another process was affected by a busy one".into(), json!({"what": "a process a full mailbox behind failed while the receiver was waiting to deliver to it", "addressed_by": addressed, "idle_got": got_idle, "failed_process_still_resolves": still, "connection_registered": nw.node.connections().contains_key(PEER_NAME)})));
+        }
+        res.steps = 1012;
+        res.outcome = format!("backlog dies {}", kind);
+        res
+    })
+}
+
 pub fn run(rep: &Report) -> Value {
     let max_len = if rep.thorough() { 4 } else { 3 };
     let n = EVENTS.len();
@@ -363,8 +414,10 @@ pub fn run(rep: &Report) -> Value {
     let st_j: Stats = for_all(rep, "runs of undecodable frames", &junks, |n, ctx| junk_run_exec(n, ctx));
     let backlogs: Vec<usize> = vec![999, 1000, 1001, 1002, 1500];
     let st_b: Stats = for_all(rep, "recipient more than a mailbox behind", &backlogs, |n, ctx| backlog_exec(*n, ctx));
+    let bd = [0usize, 1, 2];
+    let st_bd: Stats = for_all(rep, "recipient a full mailbox behind fails while the receiver waits to deliver to it", &bd, |k, ctx| backlog_dies_exec(k, ctx));
     json!({
-        "states": st.executions + st_split.executions + st_b.executions + st_c.executions + st_j.executions,
+        "states": st_bd.executions + st.executions + st_split.executions + st_b.executions + st_c.executions + st_j.executions,
         "transitions": st.transitions + st_b.transitions,
         "traces_validated_against_impl": st.executions + st_split.executions + st_b.executions + st_c.executions,
         "backlog_scenarios": backlogs,
